@@ -252,7 +252,7 @@ def _dispatch(prog, rep):
         a = arm[2][0][2]
         SELF = ("param", 1, body.arg_names.get(1, "_1"))
         r.check(a[0] == d.words, "words", "words are passed unchanged", "", "wrap_optimal_fit receives %s instead of the words" % D(a[0]))
-        r.check(models.f64_image_of(prog, a[1], d.widths), "widths", "line widths are the `as f64` image of the usize list", "",
+        r.check(models.f64_image_of(prog, a[1], d.widths, body), "widths", "line widths are the `as f64` image of the usize list", "",
                 "wrap_optimal_fit receives %s as line widths" % D(a[1]))
         r.check(a[2] == ("field", ("as", SELF, "OptimalFit"), "0"), "penalties", "the variant's Penalties are passed", "",
                 "wrap_optimal_fit receives %s instead of the variant's penalties" % D(a[2]))
